@@ -252,7 +252,7 @@ def run_names_case(case):
     return out
 
 
-ATTRIBUTE_NAMES = ['size', 'values', 'span', 'index', 'nbytes', 'copy', 'eval', 'strict', 'dtypes', 'reindex', 'add_variable', 'to_dataframe', 'replace_values', 'get_closest_match']
+ATTRIBUTE_NAMES = ['\u03b1', '\u0394Y', 'Y_\u00e9', 'size', 'values', 'span', 'index', 'nbytes', 'copy', 'eval', 'strict', 'dtypes', 'reindex', 'add_variable', 'to_dataframe', 'replace_values', 'get_closest_match']
 
 
 def blocks(tier, seed):
